@@ -4,7 +4,9 @@ import YarlProofs.C12More
 import YarlProofs.C01Str
 /-!
   C02HeadlineMore.lean — AUDIT LAYER for property C02, continuation of C02Headline.lean (the theorems here need
-  C07More.lean, which imports C02Headline.lean, and C12More.lean / C01Str.lean; this file is a leaf, nobody imports it).
+  C07More.lean, which imports C02Headline.lean, and C12More.lean / C01Str.lean; it is imported by
+  Lemmas/MeanMore.lean — hence by C02More.lean — so the headline theorems that cite C02More.lean are in the second
+  continuation C02HeadlineMore2.lean).
 
   C02 | Canonicalisation never changes what a URL means |
   "Auto-encoding preserves every decoded value: percent-decoding the canonical user, password, each path
